@@ -1105,6 +1105,13 @@ def k6(ck: Check) -> None:
     else:
         d, v2, c, lim = sites[0]
         rs2 = c.args[1] if len(c.args) > 1 else None
+        # the trial enumeration is as wide as the one it replaces: no enclosing subspace (a fixed point of the flipped
+        # reduction can hold the flipped variable at its old value while another retained variable is what stops it)
+        es_ = next((k_.value for k_ in c.keywords if k_.arg == "ensure_subspace"), c.args[2] if len(c.args) > 2 else None)
+        es_v = fm.deref(es_, d) if isinstance(es_, ast.Name) else es_
+        if es_v is not None and not (is_none(es_v) or isinstance(es_v, ast.Dict) and not es_v.keys):
+            probs.append(f"the trial enumeration is restricted by ensure_subspace=`{text(es_)[:50]}`: fixed points outside it are not "
+                         f"counted, the shorter list passes the strict-decrease test, and attractors lose their candidates")
         if lim is None or text(lim) != f"len({cs})":
             probs.append(f"trial enumeration limited by `{text(lim) if lim is not None else None}`, not by len({cs}): a "
                          f"strictly smaller result would not be known to be complete")
